@@ -114,7 +114,9 @@ class PartiesEngine(Engine):
                     ops.append({'a': 0, 'op': 'input', 'text': chunks[nchunk], 'route': rng.choice(['input', 'input', 'file'])})
                     nchunk += 1
                 else:
-                    ops.append({'a': 0, 'op': 'build', 'slot': rng.randrange(SLOTS) if built >= 2 else built})
+                    ops.append({'a': 0, 'op': 'build', 'slot': rng.randrange(SLOTS) if built >= 2 else built,
+                                # some builds bring their own id generator, the others get a fresh default one
+                                'gen': rng.choice([None, None, 'integer'])})
                     built += 1
                 continue
             slot = rng.randrange(SLOTS)
@@ -177,6 +179,7 @@ class PartiesEngine(Engine):
 
         def bump(d, k, n=1):
             d[k] = d.get(k, 0) + n
+        generators = []
 
         try:
             loader = x.ModelLoader()
@@ -210,8 +213,9 @@ class PartiesEngine(Engine):
                 elif k == 'build':
                     slot = op['slot'] % SLOTS
                     target = slot
+                    own_gen = x.IntegerGenerator() if op.get('gen') == 'integer' else None
                     try:
-                        m = loader.build_metamodel()
+                        m = loader.build_metamodel(own_gen) if own_gen is not None else loader.build_metamodel()
                     except (x.ParsingException, x.MetaException) as e:
                         m = None
                         outcome = type(e).__name__
@@ -219,7 +223,7 @@ class PartiesEngine(Engine):
                     for text in accepted:
                         twin.input(text)
                     try:
-                        tm = twin.build_metamodel()
+                        tm = twin.build_metamodel(x.IntegerGenerator()) if own_gen is not None else twin.build_metamodel()
                     except (x.ParsingException, x.MetaException) as e:
                         tm = None
                         tout = type(e).__name__
@@ -234,6 +238,23 @@ class PartiesEngine(Engine):
                             raise Violation('prefix', 'step %d: the metamodel built after %d accepted chunks differs from the '
                                             'build of a fresh loader fed the same chunks: %s'
                                             % (step, len(accepted), diff_canon(a, b)), 'prefix:content')
+                        # the source of fresh ids is part of a metamodel: the generator handed to this build, or one
+                        # that no other metamodel of this loader draws from
+                        g = m.id_generator
+
+                        def same_source(g1, g2):
+                            # behavioural where possible: two sources that announce the same next id are one source
+                            if g1 is g2:
+                                return True
+                            p1, p2 = getattr(g1, 'peek', None), getattr(g2, 'peek', None)
+                            return callable(p1) and callable(p2) and p1() == p2()
+                        if own_gen is None and any(same_source(g, og) for og in generators):
+                            raise Violation('interference', 'step %d: a build without an id generator shares the generator '
+                                            'of an earlier build: ids created in one metamodel advance the other' % step,
+                                            'interference:id-generator-shared')
+                        generators.append(g)
+                        if own_gen is not None:
+                            bump(probes, 'build_with_own_generator')
                         models[slot] = m
                         outcome = 'built'
                         bump(probes, 'builds')
